@@ -804,6 +804,7 @@ func runC10(r *core.Run) (bool, string) {
 		"Plain layer, each history: 2–16 client goroutines, 20–60 operations each (Write 40 %, Read 25 %, ReadTo 27 %, Size 8 %), 70–99 % of them on 1–3 hot addresses of a 4–16 block disk made by package disk or async_disk; every written block carries one stamp (address, client, seq) in all 512 words; after the clients have joined the main goroutine reads every block. " +
 		"Fresh-start histories (shaped_fresh_start_*): thousands of newly created disks used for one or two rounds by 2–8 clients whose first operations are released together (no read precedes the first burst). Shaped layer (shaped_* keys), each history: 2–10 clients, 15–45 rounds on 1–2 hot addresses of a 1–12 block disk; a round = observation phase (clients read the hot addresses, nobody writes), spin barrier, burst (1–3 operations per client, 82 % writes), spin barrier; a written block is the block the writer last observed at the address with its stamp put into a region only — whole block, header, trailer, inside a middle sector, two sectors, or nowhere (payload equal to the observation); after the join the main goroutine reads every block. " +
 		"MemDisk: porcupine per address against a register (60 s; whole block contents are the values in the shaped layer), a block that is no single write's payload = violation, -race child runs = race reports with a library frame are violations. " +
+		"Group layer (group_* keys, c10group.go), each case = one disk: {disk,async_disk}.{MemDisk,FileDisk} x how the disk came into being (MemDisk new / written once before; FileDisk on an absent path, an empty file, an existing image of the exact size, a shorter one, a longer one, an image the library made, wrote and closed, one it made with half the blocks; existing blocks hold a per-address pattern) x group width {8,64,512} x goroutines {2,8,16} (walked systematically over the case index), disk of 16-4096 blocks, groups aligned to the width or at an odd offset; 1-15 rounds per disk; in a round the goroutines, released together (spinning / parking barrier, per round or per step), write the blocks of one group of neighbouring addresses exactly once in the life of the disk, block i by goroutine i mod G, stamped (address, goroutine, round); reads of the group before the writes (optional), barrier, writes, barrier, concurrent read-back by the neighbour goroutine, barrier, read-back by the main goroutine at the quiescent point; after the last round a sweep over every block of the disk (above 1024 blocks: the groups written, 64 blocks on either side, both ends). Every read that begins after the write of its address returned must return exactly that payload, every other read the initial content; the child compares every block and records complete per-address histories for deviating addresses and for the first round of every 17th case, which the parent judges (direct rule + porcupine against a register initialised with the initial content). " +
 		"Both implementations: a read that overlaps no write to its address must return exactly the payload of a write that returned before it began and is not followed in real time by another such write (the zero block if there is none); no block may contain a stamp of another address. FileDisk reads that overlap a write: tearing only counted")
 	r.Assume("timestamps come from the process-wide monotonic clock (time.Since) taken by the calling goroutine before the call and after the return; equal timestamps are treated as overlapping")
 	r.Assume("FileDisk runs on the scratch filesystem of this sandbox (ext4 page cache, where one pwrite of a block is atomic with respect to another); other filesystems are not observed")
@@ -848,6 +849,10 @@ func runC10(r *core.Run) (bool, string) {
 	if !layer("fresh") {
 		nFresh = 0
 	}
+	nGroup := r.Pick(c10GroupQuick, 30000) // neighbouring-first-writes layer (c10group.go)
+	if !layer("group") {
+		nGroup = 0
+	}
 	perShapeChild := r.Pick(50, 200)
 	perFreshChild := r.Pick(500, 2000)
 	raceDir := filepath.Join(r.Scratch, "race")
@@ -886,6 +891,11 @@ func runC10(r *core.Run) (bool, string) {
 		shapeJobs = append(shapeJobs, job{"shape", shFreshBase + first, min(perFreshChild, nFresh-first), shapeGmps[k%len(shapeGmps)], id})
 		id++
 	}
+	groupGmps := []int{16, 8, 16, 4, 16, 2, 8, 16}
+	for first, k := 0, 0; first < nGroup; first, k = first+c10GroupPerChild, k+1 {
+		shapeJobs = append(shapeJobs, job{"group", first, min(c10GroupPerChild, nGroup-first), groupGmps[k%len(groupGmps)], id})
+		id++
+	}
 	// interleave shaped and plain children
 	var jobs []job
 	for i := 0; i < len(plainJobs) || i < len(shapeJobs); i++ {
@@ -907,7 +917,10 @@ func runC10(r *core.Run) (bool, string) {
 		dir := filepath.Join(r.Scratch, fmt.Sprintf("c10j%d", j.id))
 		out := filepath.Join(r.Scratch, fmt.Sprintf("c10j%d.jsonl", j.id))
 		var res core.ExecResult
-		if j.kind == "shape" {
+		if j.kind == "group" {
+			res = core.Exec(r.Scratch, env, 5*time.Minute, "", bin, "child", "c10-group",
+				strconv.FormatInt(r.Seed, 10), strconv.Itoa(j.first), strconv.Itoa(j.count), strconv.Itoa(c10GroupSampleEvery), dir, out)
+		} else if j.kind == "shape" {
 			res = core.Exec(r.Scratch, env, 5*time.Minute, "", bin, "child", "c10-shape",
 				strconv.FormatInt(r.Seed, 10), strconv.Itoa(j.first), strconv.Itoa(j.count), "1", dir, out)
 		} else {
@@ -940,6 +953,15 @@ func runC10(r *core.Run) (bool, string) {
 		sc := bufio.NewScanner(f)
 		sc.Buffer(make([]byte, 1<<20), 256<<20)
 		for sc.Scan() {
+			if j.kind == "group" {
+				var rec grRecord
+				if json.Unmarshal(sc.Bytes(), &rec) != nil {
+					r.Inconclusive("unparsable-history")
+					continue
+				}
+				ck.checkGroup(&rec)
+				continue
+			}
 			if j.kind == "shape" {
 				var rec shRecord
 				if json.Unmarshal(sc.Bytes(), &rec) != nil {
@@ -996,6 +1018,14 @@ func runC10(r *core.Run) (bool, string) {
 		}
 		if n := r.GetCount("shaped_settled_reads_judged_" + impl); n < c10ShapeFloorReads {
 			return false, fmt.Sprintf("shaped layer, %s: only %d reads overlapping no write were judged (floor %d)", impl, n, c10ShapeFloorReads)
+		}
+	}
+	if layer("group") {
+		if n := r.GetCount("group_rounds"); n < c10GroupFloorRounds {
+			return false, fmt.Sprintf("group layer: only %d rounds of concurrent first writes to neighbouring blocks were observed (floor %d)", n, c10GroupFloorRounds)
+		}
+		if n := r.GetCount("group_round_reads_returned_expected_block") + r.GetCount("group_sweep_reads_returned_expected_block"); n < c10GroupFloorReadBack {
+			return false, fmt.Sprintf("group layer: only %d blocks were read back (floor %d)", n, c10GroupFloorReadBack)
 		}
 	}
 	return true, ""
